@@ -50,6 +50,11 @@ package encryptcookie
 //@   ensures original-value: result1 == nil ==> result0 == plain(key, value)
 //@   ensures authentic-accepted: validKey(key) && authentic(key, value) ==> result1 == nil
 //@   ensures error-empty: result1 != nil ==> result0 == ""
+// Strings have no identity in the model: that the returned plaintext is a copy (string(plaintext)) and not a view of the
+// buffer it was opened in - which a later call could reuse (seed C20-7: pooled scratch buffer) - is stated over the call history.
+//@   ensures plaintext-is-a-copy: !called(@utils.UnsafeString)
+// and the buffer itself is the decoder's fresh result, opened into a new array (dst == nil), not a shared scratch buffer
+//@   atcall @cipher.AEAD.Open: opened-into-a-new-buffer: len(dst) == 0 && cap(dst) == 0
 
 //@ func GenerateKey panics
 //@   ensures valid-key: validKey(result) && len(b64dec(result)) == length
@@ -109,6 +114,12 @@ package encryptcookie
 //@   ensures excepted-pass-through: excepted(str(key)) ==> cookies[len(cookies)-1].value == str(value)
 //@   ensures value-depends-only-on-presented-ciphertext-not-on-name: !excepted(str(key)) ==> cookies[len(cookies)-1].value == readsAs(cfg.Key, str(value))
 //@   ensures earlier-pairs-kept: forall(i, 0, old(len(cookies)), cookies[i].name == old(cookies[i].name) && cookies[i].value == old(cookies[i].value))
+// no value of a non-excepted cookie gets past the Decryptor, whatever its length or shape (seed C20-9: long values skipped);
+// excepted names are not decrypted (call history: checked on the body, callers do not see it)
+//@   ensures decryptor-decides-every-non-excepted-value: excepted(str(key)) <==> !called(Config.Decryptor)
+//@   atcall Config.Decryptor: decrypts-the-presented-value-under-the-configured-key: arg0 == str(value) && arg1 == cfg.Key
+// the collected name and value are copies of the visited bytes (the header they point into is deleted and rebuilt afterwards)
+//@   ensures pairs-are-copies: !called(@utils.UnsafeString)
 
 // Response side, one call per response cookie (name key): what the client will receive for this name.
 // An Encryptor error panics (documented behaviour), so a normal return means the value was encrypted.
